@@ -32,6 +32,7 @@ from exabgp.logger import lazymsg, log
 # from exabgp.reactor.network.error import NotifyError
 from exabgp.protocol.family import AFI, SAFI
 from exabgp.protocol.ip import IP
+from exabgp.reactor.network.error import NetworkError
 from exabgp.reactor.network.outgoing import Outgoing
 
 # This is the number of chuncked message we are willing to buffer, not the number of routes
@@ -219,6 +220,9 @@ class Protocol:
 
         # internal issue
         if notify:
+            if notify.subcode == 2 and len(header) > 18 and header[18] == Message.CODE.NOTIFICATION:
+                # RFC 4271 6.4: an error in a received NOTIFICATION is not reported with a NOTIFICATION
+                raise NetworkError('received a NOTIFICATION with an invalid length')
             code = 'receive-{}'.format(Message.CODE.NOTIFICATION.SHORT)
             # Convert NotifyError to Notify for API and exception
             notify_msg = Notify(notify.code, notify.subcode, str(notify))
